@@ -130,6 +130,8 @@ def gen_trait(root, notes, server=False):
     L.append('    type Handle: From<u64> + Into<u64>;')
     L.append('    spec fn touch_ok(&self) -> bool;                       // the object may be called at all now (name gates)')
     L.append('    spec fn ids_ok(&self, uid: u32, gid: u32) -> bool;      // owner ids a setattr may carry')
+    if server:
+        L.append('    spec fn res_read_data(&self) -> Seq<u8>;                // the bytes a read produced into the writer it was given')
     info = {}
     seen_res = set()
     for m in ms:
@@ -185,6 +187,8 @@ def gen_trait(root, notes, server=False):
         if name == 'read':
             # T8 (DESIGN section 8): a filesystem's read returns the number of bytes it put into the writer, and only appends
             ens.append('zw_appended(*old(w), *final(w), res)')
+            if server:
+                ens.append('res is Ok ==> final(w).zw_buf() == old(w).zw_buf() + self.res_read_data() && res->Ok_0 == self.res_read_data().len()')
         if ens:
             L.append('        ensures ' + ', '.join(ens) + ';')
         else:
